@@ -1,5 +1,7 @@
 #!/bin/bash
 # usage: seed_matrix.sh [seed-id ...]
+#        MATRIX_SHARD=k/n seed_matrix.sh     runs every n-th seed (k = 0..n-1) and only writes /tmp/matrix_rows_k.txt
+#        seed_matrix.sh --merge              builds MATRIX.md / matrix.json from the shard files /tmp/matrix_rows_*.txt
 # For every stored seeded change (/verif/seeded/<id>/patch.diff) applies it to a scratch worktree of /repo HEAD
 # (under /tmp, removed afterwards), runs every property's quick rules on that worktree in one process and records
 # which checks report a violation.  Writes /verif/seeded/MATRIX.md and /verif/seeded/matrix.json.
@@ -7,31 +9,14 @@
 set -u
 export GOFLAGS=-mod=mod GOPROXY=off GOSUMDB=off GOTOOLCHAIN=local; unset GOWORK
 HERE=/verif
-( cd $HERE/checker && go build -o $HERE/bin/mqttverif . ) || exit 2
-# a private copy of the checker, so that a rebuild during the (long) run does not change it half-way
-BIN=$(mktemp /tmp/matrix_bin_XXXX); cp $HERE/bin/mqttverif $BIN; chmod +x $BIN
-WT=$(mktemp -d /tmp/matrix_XXXX); rmdir "$WT"
-git -C /repo worktree add -q "$WT" HEAD || exit 2
-trap 'git -C /repo worktree remove --force "$WT" 2>/dev/null; rm -rf "$WT" /tmp/matrix_ev "$BIN"' EXIT
-if [ $# -gt 0 ]; then SEEDS="$*"; else SEEDS=$(ls $HERE/seeded | grep -E '^C[0-9]+-[0-9]+$' | sort -V); fi
-# baseline: the unchanged worktree must be silent
-$BIN -repo "$WT" -prop all -known $HERE/known_findings.json -evidence /tmp/matrix_ev > /tmp/matrix_base.log 2>&1
-if [ "$(grep -c 'exit=0' /tmp/matrix_base.log)" -lt 42 ]; then echo "baseline run incomplete" >&2; tail -3 /tmp/matrix_base.log >&2; exit 2; fi
-if grep -q '^VIOLATION' /tmp/matrix_base.log; then echo "baseline not silent" >&2; grep '^VIOLATION' /tmp/matrix_base.log >&2; exit 1; fi
-OUT=/tmp/matrix_rows.txt; : > $OUT
-for s in $SEEDS; do
-  ( cd "$WT" && git checkout -q -- . && git clean -fdq && git apply $HERE/seeded/$s/patch.diff ) || { echo "$s: patch does not apply" >&2; echo "$s|PATCH-FAILED|" >> $OUT; continue; }
-  $BIN -repo "$WT" -prop all -known $HERE/known_findings.json -evidence /tmp/matrix_ev > /tmp/matrix_$s.log 2>&1
-  own=${s%%-*}
-  hits=$(grep '^VIOLATION' /tmp/matrix_$s.log | sed -E 's/.*property=(C[0-9]+).*/\1/' | sort -u | tr '\n' ' ')
-  rules=$(grep -A1 '^VIOLATION' /tmp/matrix_$s.log | grep 'rule=' | sed -E 's/^ +rule=([^ ]+ [^ ]*) .*/\1/' | sort -u | tr '\n' ';')
-  broke=$(grep -c 'exit=2' /tmp/matrix_$s.log)
-  echo "$s|$hits|$rules|$broke" >> $OUT
-  echo "$s -> ${hits:-MISSED} (machinery failures: $broke)"
-done
-python3 - "$OUT" <<'PY'
-import sys,json,os
-rows=[l.rstrip('\n').split('|') for l in open(sys.argv[1])]
+
+merge() {
+python3 - "$1" <<'PY'
+import sys,json,os,re
+rows=[l.rstrip('\n').split('|') for l in open(sys.argv[1]) if l.strip()]
+def key(r):
+    m=re.match(r'C(\d+)-(\d+)',r[0]); return (int(m.group(1)),int(m.group(2)))
+rows.sort(key=key)
 res=[]
 md=["# Seeded changes × checks","",
 "Produced by `/verif/seed_matrix.sh` (every property's quick rules run on a scratch worktree with the change applied).",
@@ -51,3 +36,45 @@ open('/verif/seeded/MATRIX.md','w').write('\n'.join(md)+'\n')
 json.dump(res,open('/verif/seeded/matrix.json','w'),indent=1)
 print(md[-1])
 PY
+}
+
+if [ "${1:-}" = --merge ]; then
+  cat /tmp/matrix_rows_[0-9]*.txt > /tmp/matrix_rows.txt
+  merge /tmp/matrix_rows.txt
+  exit 0
+fi
+
+( cd $HERE/checker && go build -o $HERE/bin/mqttverif . ) || exit 2
+# a private copy of the checker, so that a rebuild during the (long) run does not change it half-way
+BIN=$(mktemp /tmp/matrix_bin_XXXX); cp $HERE/bin/mqttverif $BIN; chmod +x $BIN
+WT=$(mktemp -d /tmp/matrix_XXXX); rmdir "$WT"
+git -C /repo worktree add -q "$WT" HEAD || exit 2
+EV=$(mktemp -d /tmp/matrix_ev_XXXX)
+trap 'git -C /repo worktree remove --force "$WT" 2>/dev/null; rm -rf "$WT" "$EV" "$BIN"' EXIT
+if [ $# -gt 0 ]; then SEEDS="$*"; else SEEDS=$(ls $HERE/seeded | grep -E '^C[0-9]+-[0-9]+$' | sort -V); fi
+OUT=/tmp/matrix_rows.txt
+TAG=all
+if [ -n "${MATRIX_SHARD:-}" ]; then
+  K=${MATRIX_SHARD%/*}; N=${MATRIX_SHARD#*/}
+  SEEDS=$(echo $SEEDS | tr ' ' '\n' | awk -v k=$K -v n=$N 'NR % n == k')
+  OUT=/tmp/matrix_rows_$K.txt
+  TAG=$K
+fi
+# baseline: the unchanged worktree must be silent
+$BIN -repo "$WT" -prop all -known $HERE/known_findings.json -evidence $EV > /tmp/matrix_base_$TAG.log 2>&1
+if [ "$(grep -c 'exit=0' /tmp/matrix_base_$TAG.log)" -lt 42 ]; then echo "baseline run incomplete" >&2; tail -3 /tmp/matrix_base_$TAG.log >&2; exit 2; fi
+if grep -q '^VIOLATION' /tmp/matrix_base_$TAG.log; then echo "baseline not silent" >&2; grep '^VIOLATION' /tmp/matrix_base_$TAG.log >&2; exit 1; fi
+: > $OUT
+for s in $SEEDS; do
+  ( cd "$WT" && git checkout -q -- . && git clean -fdq && git apply $HERE/seeded/$s/patch.diff ) || { echo "$s: patch does not apply" >&2; echo "$s|PATCH-FAILED|" >> $OUT; continue; }
+  $BIN -repo "$WT" -prop all -known $HERE/known_findings.json -evidence $EV > /tmp/matrix_$s.log 2>&1
+  own=${s%%-*}
+  hits=$(grep '^VIOLATION' /tmp/matrix_$s.log | sed -E 's/.*property=(C[0-9]+).*/\1/' | sort -u | tr '\n' ' ')
+  rules=$(grep -A1 '^VIOLATION' /tmp/matrix_$s.log | grep 'rule=' | sed -E 's/^ +rule=([^ ]+ [^ ]*) .*/\1/' | sort -u | tr '\n' ';')
+  broke=$(grep -c 'exit=2' /tmp/matrix_$s.log)
+  echo "$s|$hits|$rules|$broke" >> $OUT
+  echo "$s -> ${hits:-MISSED} (machinery failures: $broke)"
+  rm -f /tmp/matrix_$s.log
+done
+[ -n "${MATRIX_SHARD:-}" ] && exit 0
+merge "$OUT"
